@@ -161,8 +161,94 @@ def run(ctx):
                         ctx.violation('graded-incomplete', case, list(alg.indices_for_grades[gs]), list(ks_),
                                       key=f'graded-incomplete:{"degenerate" if degenerate else "nondegenerate"}')
     blades_pass(ctx)
+    strict_wrapper_pass(ctx)
     ctx.assumptions = ['floats only where kingdon itself introduces them (sqrt, outer series): compared to 1e-9',
                        'codegen_symbolcls=sympy.Symbol is slow; dense composite operators are skipped for it in d >= 3']
+
+
+def strict_wrapper(f):
+    """a numba-like wrapper: the wrapped function accepts numbers (and arrays of numbers) only"""
+    import numbers
+    import numpy as np
+    def ok(v):
+        if isinstance(v, (numbers.Number, Fraction)) and not hasattr(v, 'free_symbols'):
+            return True
+        if isinstance(v, np.ndarray):
+            return v.dtype != object
+        if isinstance(v, (list, tuple)):
+            return all(ok(u) for u in v)
+        return False
+    def g(*args):
+        if not all(ok(a) for a in args):
+            raise TypeError('strict wrapper: non-numeric argument ' + repr(args)[:80])
+        return f(*args)
+    g.__name__ = f.__name__
+    return g
+
+
+def strict_wrapper_pass(ctx):
+    """(1) a wrapper that only accepts numbers, alone and together with codegen_symbolcls=sympy.Symbol: code generation must not push
+    symbolic values through the wrapper; (2) codegen_symbolcls=sympy.Symbol in d = 6 (iterative inverse); (3) registered functions of
+    one, two and three arguments (both compilation routes) on algebras with a wrapper: same results as without"""
+    import sympy
+    from kingdon import MultiVector
+    rng = ctx.rng
+    def reg1(x): return x * x + x
+    def reg2(x, y): return x * y - (y | x)
+    def reg3(u, v, w): return u * v * w * v * u
+    for sig in ([1, 1, 1], [0, 1, 1]):
+        base_alg = make_algebra(sig)
+        for optname, kw in (('wrapper=strict', {'wrapper': strict_wrapper}), ('wrapper=strict,symcls=sympy', {'wrapper': strict_wrapper, 'codegen_symbolcls': sympy.Symbol}),
+                            ('wrapper=identity', {'wrapper': ident})):
+            alg = make_algebra(sig, **kw)
+            N = 2 ** alg.d
+            pats = [[1, 2, 4], [0, 3], [3, 5, 6], [0, 7], [1, 6]]
+            for kx in pats:
+                vx = [Fraction(rng.randint(1, 7)) for _ in kx]
+                ky = rng.choice(pats); vy = [Fraction(rng.randint(1, 7)) for _ in ky]
+                for op in ['gp', 'sw', 'proj', 'div', 'inv', 'normsq', 'polarity', 'hodge', 'outerexp', 'reverse']:
+                    def ev(a):
+                        x = MultiVector.fromkeysvalues(a, tuple(kx), list(vx)); y = MultiVector.fromkeysvalues(a, tuple(ky), list(vy))
+                        return result(lambda: BIN[op](x, y) if op in BIN and op in BINS else UN[op](x))
+                    base = ev(base_alg)
+                    if base[0] != 'ok':
+                        continue
+                    got = ev(alg)
+                    case = {'sig': sig, 'options': optname, 'op': op, 'kx': kx, 'ky': ky}
+                    ctx.case(case, tag='opts:' + optname)
+                    if got[0] != 'ok':
+                        ctx.violation('option-raises', case, str(base[1])[:150], str(got[1])[:200], key=f'raises:{optname}:{op}')
+                    elif not close(got[1], base[1]):
+                        ctx.violation('option-differs', case, str(base[1])[:200], str(got[1])[:200], key=f'differs:{optname}:{op}')
+            # registered functions of arity 1..3, both routes
+            for symbolic in (False, True):
+                for nm, f, ar in (('x*x+x', reg1, 1), ('x*y-(y|x)', reg2, 2), ('u*v*w*v*u', reg3, 3)):
+                    args_k = [rng.choice(pats[:3]) for _ in range(ar)]
+                    args_v = [[Fraction(rng.randint(1, 5)) for _ in k] for k in args_k]
+                    def evr(a):
+                        rf = a.register(symbolic=True)(f) if symbolic else a.register(f)
+                        return result(lambda: rf(*[MultiVector.fromkeysvalues(a, tuple(k), list(v)) for k, v in zip(args_k, args_v)]))
+                    base = evr(base_alg)
+                    if base[0] != 'ok':
+                        continue
+                    got = evr(alg)
+                    case = {'sig': sig, 'options': optname, 'registered': nm, 'symbolic_route': symbolic, 'keys': args_k}
+                    ctx.case(case, tag='opts:registered:' + optname)
+                    if got[0] != 'ok':
+                        ctx.violation('option-raises', case, str(base[1])[:150], str(got[1])[:200], key=f'raises:{optname}:registered:{ar}')
+                    elif not close(got[1], base[1]):
+                        ctx.violation('option-differs', case, str(base[1])[:200], str(got[1])[:200], key=f'differs:{optname}:registered:{ar}')
+    # d = 6: the iterative inverse with sympy symbols
+    a6 = make_algebra([1, 1, 1, 1, 1, 1]); s6 = make_algebra([1, 1, 1, 1, 1, 1], codegen_symbolcls=sympy.Symbol)
+    for kx, vx in (([3, 12], [2.0, 3.0]), ([1, 6], [1.0, 2.0]), ([0, 3], [2.0, 1.0])):
+        def ev6(a):
+            x = MultiVector.fromkeysvalues(a, tuple(kx), list(vx))
+            return result(lambda: x.inv())
+        base, got = ev6(a6), ev6(s6)
+        case = {'sig': [1] * 6, 'options': 'symcls=sympy', 'op': 'inv', 'kx': kx}
+        ctx.case(case, tag='opts:sympy:d6')
+        if base[0] == 'ok' and (got[0] != 'ok' or not close(got[1], base[1])):
+            ctx.violation('option-differs', case, str(base[1])[:200], str(got[1])[:200], key='differs:sympy:inv:d6')
 
 
 def blades_pass(ctx):
